@@ -557,7 +557,7 @@ Print Assumptions C07_selection_group_guard_refuted.
 (* ---------------------------------------------------------------- round 8: generated call sequences, index selection, pvFill *)
 From C07 Require Gen_Protocol.
 From Coq Require Import String.
-From C07 Require Import ProtoSyntax ProtoSem ProtoProofs FitSem UHashSem UHashProofs FillModel MHashSem MHashProofs SelectModel.
+From C07 Require Import ProtoSyntax ProtoSem ProtoProofs FitSem UHashSem UHashProofs FillModel MHashSem MHashProofs SelectModel SelEditModel.
 Local Open Scope string_scope.
 
 (* The statement trees of DataIndexes::AddRaw / RemoveRaw / UpdateRaw(old,new) / UpdateRaw(raw, offset, item, assigner) are
@@ -733,3 +733,38 @@ Theorem C07_generated_pvSelect_is_model :
   sel_stmts R ct s rs q eqs f Gen_Protocol.T_pvSelect (fun _ => None) None = Some (pv_select R ct s rs q eqs f).
 Proof. exact generated_pvSelect. Qed.
 Print Assumptions C07_generated_pvSelect_is_model.
+
+(* ---------------------------------------------------------------- round 10 *)
+
+(* pvSelectRec: every instantiated overload of the variadic recursion is one of two shapes (same code) ... *)
+Theorem C07_pvselectrec_instantiations_same_code :
+  forallb (fun t => is_step t || base_tree t) Gen_Protocol.T_pvSelectRec_all = true.
+Proof. exact all_same_code. Qed.
+Print Assumptions C07_pvselectrec_instantiations_same_code.
+
+(* ... and the recursion run on the dumped overloads is the hand model select_rec used by C07_pvselect_is_brute_force *)
+Theorem C07_generated_pvSelectRec_is_model :
+  forall ct cols eqs f tuple,
+  rec_tree ct cols first_step first_base eqs f tuple = Some (select_rec ct cols eqs f tuple).
+Proof. exact generated_pvSelectRec. Qed.
+Print Assumptions C07_generated_pvSelectRec_is_model.
+
+(* DataSelection editing: Remove(filter)'s compacting swap loop keeps exactly the rejected rows in order and counts the removed
+   ones; Insert(index, range) = Add + rotate is the splice; Assign = Add + Remove(0, old count) is the new range *)
+Theorem C07_selection_remove_filter_is_filter :
+  forall (p : Z -> bool) l,
+  sel_remove_pred p l = filter (fun x => negb (p x)) l /\ List.length (snd (remove_loop p [] [] l)) = List.length (filter p l).
+Proof. exact remove_pred_is_filter. Qed.
+Print Assumptions C07_selection_remove_filter_is_filter.
+
+Theorem C07_selection_insert_range_assign :
+  forall (l xs : list Z) i,
+  (i <= List.length l -> sel_insert_range i xs l = (firstn i l ++ xs ++ skipn i l)%list) /\ sel_assign xs l = xs.
+Proof. exact insert_assign_spec. Qed.
+Print Assumptions C07_selection_insert_range_assign.
+
+(* frame: whatever editing function is applied, a selection of rows of the table stays one if the rows handed in are table rows *)
+Theorem C07_selection_edit_frame :
+  forall (rs : list Z) o l, incl l rs -> incl (op_rows o) rs -> incl (sel_apply o l) rs.
+Proof. exact selection_edit_frame. Qed.
+Print Assumptions C07_selection_edit_frame.
